@@ -413,6 +413,18 @@ impl crate::qustate::QuState for VectorState
         self.states[[0, 0]] = crate::cmatrix::COMPLEX_ONE;
         self.counts = vec![self.nr_shots];
     }
+
+    #[cfg(feature = "verif")]
+    fn verif_snapshot(&self) -> crate::verif::Snapshot
+    {
+        crate::verif::Snapshot::Vector {
+            nr_bits: self.nr_bits,
+            counts: self.counts.clone(),
+            states: (0..self.states.cols())
+                .map(|k| self.states.column(k).iter().map(|c| (c.re, c.im)).collect())
+                .collect()
+        }
+    }
 }
 
 #[cfg(test)]
